@@ -2957,6 +2957,12 @@ class Group(System):
         """
         if self._relevance_changed():
             self._jacobian = None
+            if (self._owns_approx_jac and self.pathname and not self._first_call_to_linearize
+                    and self._coloring_info.coloring is None):
+                # The semi-total approximations were set up for the columns that were relevant
+                # at that time.  Columns needed under the new relevance would be missing (zero).
+                self._clear_jac_caches()
+                self._setup_approx_derivs()
 
         if self._jacobian is None:
             if self._owns_approx_jac:
